@@ -89,6 +89,14 @@ func (a *TraderAgent) Step(s *Sim) {
 				in = sdkmath.NewInt(int64(1 + r.IntN(3))) // dust
 			}
 			routes := []ammtypes.SwapAmountInRoute{{PoolId: p.PoolId, TokenOutDenom: outDenom}}
+			if !multihop && r.Float64() < 0.08 {
+				// a route that visits the same pool again: round trip A->B->A inside one pool, or p, p2, p
+				routes = append(routes, ammtypes.SwapAmountInRoute{PoolId: p.PoolId, TokenOutDenom: inDenom})
+				if r.IntN(2) == 0 {
+					routes = append(routes, ammtypes.SwapAmountInRoute{PoolId: p.PoolId, TokenOutDenom: outDenom})
+				}
+				s.Stats.Probe("route_revisits_pool_submitted")
+			}
 			if multihop {
 				routes = append(routes, ammtypes.SwapAmountInRoute{PoolId: p2.PoolId, TokenOutDenom: otherDenom(p2, DenomUSDC)})
 				s.Stats.Probe("multihop_swap_submitted")
